@@ -51,7 +51,7 @@ def main():
     if len(sys.argv) > 1:
         names = [n for n in names if n in sys.argv[1:]]
     bad = 0
-    with cf.ThreadPoolExecutor(max_workers=8) as ex:
+    with cf.ThreadPoolExecutor(max_workers=14) as ex:
         for name, out in ex.map(run_one, names):
             if not out:
                 print(f"{name:12s} silent on all {len(PROPS)} properties")
